@@ -136,10 +136,10 @@ impl Gen {
             ("fsync", 1, 0, 1),
             ("readlink", 2, 4, 0),
             ("statfs", 1, 0, 0),
-            ("setxattr", 2, 2, 0),
+            ("setxattr", 4, 2, 0),
             ("getxattr", 2, 2, 0),
             ("listxattr", 1, 1, 0),
-            ("removexattr", 1, 1, 0),
+            ("removexattr", 3, 1, 0),
         ];
         let total: u64 = table.iter().map(|t| if seal { t.3 } else if c06 { t.2 } else { t.1 }).sum();
         let mut r = self.rng.below(total);
@@ -309,12 +309,13 @@ impl Gen {
             "readlink" => json!({"op": "readlink", "n": if self.rng.chance(3, 4) { self.pick_node(&["lnk"]) } else { self.pick_node(&[]) }}),
             "statfs" => json!({"op": "statfs", "n": self.pick_node(&[])}),
             "setxattr" => {
+                let xn = if self.rng.chance(1, 2) { 0 } else { self.pick_node(&[]) };
                 let l = self.rng.below(4);
-                json!({"op": "setxattr", "n": self.pick_node(&[]), "xname": *self.rng.pick(&["user.a", "user.b"]), "xval": self.data(l), "xflags": *self.rng.pick(&[0u32, 0, 1, 2])})
+                json!({"op": "setxattr", "n": xn, "xname": *self.rng.pick(&["user.a", "user.a", "user.a", "user.b"]), "xval": self.data(l), "xflags": *self.rng.pick(&[0u32, 0, 1, 2])})
             }
-            "getxattr" => json!({"op": "getxattr", "n": self.pick_node(&[]), "xname": *self.rng.pick(&["user.a", "user.b"]), "size": *self.rng.pick(&[0u32, 1, 64])}),
-            "listxattr" => json!({"op": "listxattr", "n": self.pick_node(&[]), "size": *self.rng.pick(&[0u32, 64])}),
-            "removexattr" => json!({"op": "removexattr", "n": self.pick_node(&[]), "xname": *self.rng.pick(&["user.a", "user.b"])}),
+            "getxattr" => { let xn = if self.rng.chance(1, 2) { 0 } else { self.pick_node(&[]) }; json!({"op": "getxattr", "n": xn, "xname": *self.rng.pick(&["user.a", "user.a", "user.a", "user.b"]), "size": *self.rng.pick(&[0u32, 1, 64])}) },
+            "listxattr" => { let xn = if self.rng.chance(1, 2) { 0 } else { self.pick_node(&[]) }; json!({"op": "listxattr", "n": xn, "size": *self.rng.pick(&[0u32, 64])}) },
+            "removexattr" => { let xn = if self.rng.chance(1, 2) { 0 } else { self.pick_node(&[]) }; json!({"op": "removexattr", "n": xn, "xname": *self.rng.pick(&["user.a", "user.a", "user.a", "user.b"])}) },
             _ => json!({"op": "getattr", "n": 0, "h": -1}),
         }
     }
